@@ -4,7 +4,7 @@ import FeatModel.Lemmas.C07Control
 namespace FeatModel.Solver
 set_option linter.unusedSectionVars false
 
-variable {V α : Type} [Mul α] [Div α] [Neg α] [Zero α] [One α] [LE α] [LT α] [DecidableEq α] [DecidableLE α]
+variable {V α : Type} [Add α] [Mul α] [Div α] [Neg α] [Zero α] [One α] [LE α] [LT α] [DecidableEq α] [DecidableLE α]
   [DecidableLT α]
 
 theorem pcgIntern_indep (S : Sys V α) (c : Config α) (p1 p2 : State α) (x r : V) :
@@ -22,6 +22,10 @@ theorem pcrIntern_indep (S : Sys V α) (c : Config α) (p1 p2 : State α) (x r :
 theorem pcgnrIntern_indep (S : Sys V α) (c : Config α) (p1 p2 : State α) (x r : V) :
     pcgnrIntern S c p1 x r = pcgnrIntern S c p2 x r := by
   simp only [pcgnrIntern, setInitial_indep c p1 p2]
+
+theorem chebIntern_indep (S : Sys V α) (c : Config α) (p1 p2 : State α) (minEv maxEv : α) (b x df : V) :
+    chebIntern S c p1 minEv maxEv b x df = chebIntern S c p2 minEv maxEv b x df := by
+  simp only [chebIntern, setInitial_indep c p1 p2]
 
 theorem pmrIntern_indep (S : Sys V α) (c : Config α) (p1 p2 : State α) (x r : V) :
     pmrIntern S c p1 x r = pmrIntern S c p2 x r := by
@@ -41,6 +45,7 @@ theorem solveOne_indep (k : Kind) (S : Sys V α) (c : Config α) (omega : α) (p
   | pmr => simp only [solveOne, pmrApply, pmrCorrect, pmrIntern_indep S c p1 p2]
   | pcgnr => simp only [solveOne, pcgnrApply, pcgnrCorrect, pcgnrIntern_indep S c p1 p2]
   | bicgstab => simp only [solveOne, bicgApply, bicgCorrect, bicgIntern_indep S c p1 p2]
+  | cheb => simp only [solveOne, chebSolve, chebIntern_indep S c p1 p2]
 
 theorem runSession_indep (k : Kind) (S : Sys V α) (c : Config α) (omega : α) (st : State α)
     (l : List (Bool × V × V)) :
